@@ -546,6 +546,19 @@ pub fn s_is_ep_capture(p: &Pos, m: &Mv) -> bool {
 
 /// Pseudo-legality by the movement rules of Art. 3 (own king safety not yet considered).
 pub fn s_pseudo(p: &Pos, m: &Mv) -> bool {
+    s_pseudo_geom(p, m) && (!s_is_castle(p, m) || s_castle_path_safe(p, m))
+}
+
+/// castling (Art. 3.8.2.2): the king is not in check, does not pass through and does not land on an attacked square
+pub fn s_castle_path_safe(p: &Pos, m: &Mv) -> bool {
+    let them = 1 - p.stm;
+    let occ = p.occ();
+    let mid = if m.dst > m.src { m.src + 1 } else { m.src - 1 };
+    !s_attacked(p, m.src, them, occ) && !s_attacked(p, mid, them, occ) && !s_attacked(p, m.dst, them, occ)
+}
+
+/// the movement rules without the attack clauses of castling
+pub fn s_pseudo_geom(p: &Pos, m: &Mv) -> bool {
     let me = p.stm;
     let them = 1 - me;
     let occ = p.occ();
@@ -605,27 +618,16 @@ pub fn s_pseudo(p: &Pos, m: &Mv) -> bool {
         if s_king(m.src) & d != 0 {
             return true;
         }
-        // castling (Art. 3.8.2): right held, king and rook on home squares, squares between empty,
-        // king not in check, does not pass through or land on an attacked square
+        // castling (Art. 3.8.2): right held, king and rook on home squares, squares between empty
         let base = s_back_rank(me);
         if m.src != base + 4 {
             return false;
         }
         let rooks = p.pieces[ROOK] & p.colors[me];
         if m.dst == base + 6 {
-            p.rights[me] & 1 != 0
-                && has(rooks, base + 7)
-                && occ & (bit(base + 5) | bit(base + 6)) == 0
-                && !s_attacked(p, base + 4, them, occ)
-                && !s_attacked(p, base + 5, them, occ)
-                && !s_attacked(p, base + 6, them, occ)
+            p.rights[me] & 1 != 0 && has(rooks, base + 7) && occ & (bit(base + 5) | bit(base + 6)) == 0
         } else if m.dst == base + 2 {
-            p.rights[me] & 2 != 0
-                && has(rooks, base)
-                && occ & (bit(base + 1) | bit(base + 2) | bit(base + 3)) == 0
-                && !s_attacked(p, base + 4, them, occ)
-                && !s_attacked(p, base + 3, them, occ)
-                && !s_attacked(p, base + 2, them, occ)
+            p.rights[me] & 2 != 0 && has(rooks, base) && occ & (bit(base + 1) | bit(base + 2) | bit(base + 3)) == 0
         } else {
             false
         }
